@@ -272,7 +272,7 @@ def run(ctx, rep):
         if b is not None:
             rep.check("C06.end", "%s reports InvalidSeek when the stream ends before the target" % path, len(agg_sites(b, "Error", "InvalidSeek")) >= 1, loc_of(b))
     from rules import castlib
-    rep.floor("C06.cast", "narrowing casts inspected", castlib.cast_audit(ctx, rep, "C06", ['decode.rs']), 4)
+    rep.floor("C06.cast", "narrowing casts inspected", castlib.cast_audit(ctx, rep, "C06", ['decode.rs']), 1)
     from rules import iolib
     iolib.count_rules(ctx, rep, "C06")
     from rules import C09 as _C09
